@@ -1128,7 +1128,14 @@ func (q *qworld) invariant() {
 				for s := uint64(1); s <= m; s++ {
 					if views[i].ids[s-1] != views[j].ids[s-1] {
 						a, b := views[i].ids[s-1], views[j].ids[s-1]
-						q.fail("committed-divergence", "", fmt.Sprintf("c%d: n%d and n%d disagree at offset %d (both committed >= %d): term %d cmd %x vs term %d cmd %x",
+						// root-cause signature: under the adversarial control plane two authorities that
+						// overlapped may each have certified their own entries (no voter fences an older
+						// authority); any divergence without such an overlap keeps the empty signature
+						sig := ""
+						if cs.poisoned {
+							sig = "after-overlapping-authorities"
+						}
+						q.fail("committed-divergence", sig, fmt.Sprintf("c%d: n%d and n%d disagree at offset %d (both committed >= %d): term %d cmd %x vs term %d cmd %x",
 							ci, q.ids[i], q.ids[j], s, m, a.LeaderTerm, a.CommandID[:3], b.LeaderTerm, b.CommandID[:3]), nil)
 						return
 					}
